@@ -27,14 +27,16 @@ func newCollector(partCount, totalSize int, now time.Time) *collector {
 	}
 }
 
-func (c *collector) addPart(partIndex int, data []byte) error {
+// addPart adds a part and reports whether this call completed the message.
+// Only one caller can ever be told that it completed the message.
+func (c *collector) addPart(partIndex int, data []byte) (bool, error) {
 	if partIndex >= c.partCount {
-		return errors.Errorf("partIndex %d >= partCount %d", partIndex, c.partCount)
+		return false, errors.Errorf("partIndex %d >= partCount %d", partIndex, c.partCount)
 	}
 	c.mu.Lock()
 	defer c.mu.Unlock()
 	if c.bitMap.get(partIndex) {
-		return nil
+		return false, nil
 	}
 	var offset int
 	if partIndex == (c.partCount - 1) {
@@ -43,11 +45,11 @@ func (c *collector) addPart(partIndex int, data []byte) error {
 		offset = len(data) * partIndex
 	}
 	if offset < 0 || offset+len(data) > len(c.buf) {
-		return errors.Errorf("part at offset=%d len=%d does not fit in message of len=%d", offset, len(data), len(c.buf))
+		return false, errors.Errorf("part at offset=%d len=%d does not fit in message of len=%d", offset, len(data), len(c.buf))
 	}
 	copy(c.buf[offset:], data)
 	c.bitMap.set(partIndex, true)
-	return nil
+	return c.bitMap.allSet(), nil
 }
 
 func (c *collector) isComplete() bool {
@@ -90,12 +92,20 @@ func (fl *fragLayer) handlePart(remote p2p.Addr, gid GroupID, partIndex, partCou
 	if partCount < 2 && !disableFastPath {
 		return fn(body)
 	}
+	if partCount == 0 {
+		// an empty message still arrives as one packet
+		partCount = 1
+	}
 	col, err := fl.getCollector(cid, partCount, totalSize)
 	if err != nil {
 		return err
 	}
-	col.addPart(int(partIndex), body)
-	if !col.isComplete() {
+	completed, err := col.addPart(int(partIndex), body)
+	if err != nil {
+		return err
+	}
+	if !completed {
+		// either parts are still missing, or another worker completed the message and delivers it.
 		return nil
 	}
 	defer fl.dropCollector(cid)
